@@ -154,4 +154,10 @@ theorem C11_linear_generations (r0 : Repo) (c0 : List HData) (k0 m0 : Nat) (h0 :
   refine ⟨hd, ?_⟩
   simp only [applyOp, hs', hidx]; rfl
 
+/-- **C11 (LoadBranch rebuilds the hash→height map from the saved prune offset), tie to the source.** Regenerated
+    from /repo on every run: the map starts at `parentHeight + offset` (the model's `loadBranch` does the same), not at
+    `parentHeight + 1` — a reloaded branch reports every hash at the height it was saved at. -/
+theorem C11_loadBranch_height_start_in_source :
+    Facts.loadBranchHeightStart = "result.parentHeight + result.offset" := by decide
+
 end BRV.Repo
